@@ -5,7 +5,7 @@ import filecmp, os, re, shutil, sys
 V = os.path.dirname(os.path.dirname(os.path.abspath(__file__)))
 src = sys.argv[1].rstrip("/")
 force = set(sys.argv[2:])
-DIRS = ["lean/PycsepVerif/Model", "lean/PycsepVerif/Proofs", "lean/PycsepVerif/Properties", "lean/PycsepVerif/Drive",
+DIRS = ["lean/PycsepVerif/Model", "lean/PycsepVerif/Source", "lean/PycsepVerif/Proofs", "lean/PycsepVerif/Properties", "lean/PycsepVerif/Drive",
         "lean/PycsepVerif", "harness", "notes", "corpus", "tools"]
 copied, differ = [], []
 for d in DIRS:
